@@ -1,6 +1,6 @@
 CONSTANTS
   Dev = {}
-  RecU = {1, 2, 5}
+  RecU = {1, 2, 9}
   MaxC = 2
   Kinds = {"axfr", "ixfr1", "fallback", "uptodate"}
   MaxMsgs = 3
